@@ -111,6 +111,17 @@ def explore(ctx):
             continue
         tail = [] if rng.random() < 0.6 else [('limit', rng.choice([1, 2, 3, -1, -2, None]))]
         cases.append(Case('a%d' % i, STAR, [('json', None), st] + tail, [gen.jtext(r) for r in rows], {'implicit'}, note={'stage': st, 'limited': bool(tail)}))
+    # ... grouped by a time slice: then the implicit sort is ascending by _timeslice first, wherever it stands among the keys
+    for i in range(n // 6):
+        rows = gen.gen_rows(rng, rng.randint(3, 25), rich=False)
+        for r in rows:
+            r['ts'] = gen.gen_ts(rng)
+        other = rng.choice(['k', 'g', 'flag'])
+        keys = rng.choice([[col('_timeslice')], [col(other), col('_timeslice')], [col('_timeslice'), col(other)]])
+        st = ('agg', [(None, ('count', None))] + ([(None, ('sum', col('a')))] if rng.random() < 0.5 else []), [(None, e) for e in keys])
+        tail = [] if rng.random() < 0.7 else [('limit', rng.choice([2, 5, None]))]
+        cases.append(Case('ts%d' % i, STAR, [('json', None), ('timeslice', ('call', 'parseDate', [col('ts')]), rng.choice([3600, 60, 86400]) * 10**9, None), st] + tail,
+                          [gen.jtext(r) for r in rows], {'timesliced'}, note={'limited': bool(tail)}))
     # computed keys, several directions: against the model only
     for i in range(n // 3):
         rows = gen.gen_rows(rng, rng.randint(0, 20))
@@ -161,6 +172,10 @@ def explore(ctx):
                     spec = 'the same rows in a different arrival order were sorted differently (tie-break not deterministic)'
             if len(rows) >= 5 and len({aglib.canon_key(aggoracle.canon_in(row.get(keys[0]))) for row in rows}) < len(rows):
                 nontrivial.add(c.query + '\0' + c.inp.decode('utf8', 'replace'))
+        elif 'timesliced' in c.tags and impl['kind'] == 'table' and impl['rows']:
+            tsl = [str(r0.get('_timeslice')) for r0 in impl['rows']]
+            if tsl != sorted(tsl):
+                spec = 'an aggregation grouped by _timeslice is not ordered by time: %r' % tsl[:6]
         elif 'implicit' in c.tags and not c.note['limited'] and impl['rows']:
             st = c.note['stage']
             aggcols = [(nm if nm is not None else qast.fn_default_name(fn)) for nm, fn in st[1]]
